@@ -2,7 +2,7 @@
     query_count.go). Properties C03 (queries visit exactly the selected rows, Count, EntityAt),
     C13 (queries do not write the world), C20 (debug build panics on the same calls). To be filled. *)
 From Ark Require Import Model.Base Model.Mask Model.Pool Model.Util Model.World Model.Run.
-From Ark Require Import Proofs.MaskProofs Proofs.ObsDoc Proofs.TableProofs Proofs.WF Proofs.StorageA.
+From Ark Require Import Proofs.MaskProofs Proofs.ObsDoc Proofs.TableProofs Proofs.WF Proofs.StorageA Proofs.LockWorld Proofs.Hoare.
 From RecordUpdate Require Import RecordSet.
 Import RecordSetNotations.
 From Coq Require Import Lia.
@@ -11,14 +11,29 @@ From Coq Require Import Lia.
 Theorem filter_matches_spec : forall f m,
   filter_matches f m = true <->
   subset (f_mask f) m /\ (f_haswithout f = true -> disjoint m (f_without f)).
-Admitted.
+Proof.
+  intros f m. unfold filter_matches.
+  rewrite Bool.andb_true_iff, Bool.orb_true_iff, !Bool.negb_true_iff, contains_subset, contains_any_disjoint.
+  split; intros [H1 H2]; split; try exact H1.
+  - intros Hw. destruct H2 as [H2|H2]; [congruence | exact H2].
+  - destruct (f_haswithout f); [right; apply H2; reflexivity | left; reflexivity].
+Qed.
 
 (** An exclusive filter (without = complement of the mask within the mask width) matches exactly its own mask. *)
 Theorem filter_exclusive_exact : forall bits f m,
   f_haswithout f = true -> f_without f = mk_not bits (f_mask f) ->
   (forall j, mk_get m j = true -> j < bits) -> (forall j, mk_get (f_mask f) j = true -> j < bits) ->
   (filter_matches f m = true <-> m = f_mask f).
-Admitted.
+Proof.
+  intros bits f m Hw He Hm Hf. rewrite filter_matches_spec. split.
+  - intros [Hs Hd]. specialize (Hd Hw). apply mk_eq_ext. intros j.
+    destruct (mk_get m j) eqn:E1, (mk_get (f_mask f) j) eqn:E2; try reflexivity.
+    + exfalso. apply (Hd j). split; [exact E1|]. rewrite He, mk_get_not by (apply Hm; exact E1).
+      rewrite E2. reflexivity.
+    + apply Hs in E2. congruence.
+  - intros ->. split; [intros j Hj; exact Hj|]. intros _ j [H1 H2].
+    rewrite He, mk_get_not in H2 by (apply Hf; exact H1). rewrite H1 in H2. discriminate.
+Qed.
 
 (** ** Queries never write the world: every query operation only changes the query objects, the
     lock, and nothing else (in particular no storage field and no observer field). *)
@@ -30,23 +45,426 @@ Definition query_frame (s s' : W) : Prop :=
   w_cpool s' = w_cpool s /\ w_filters s' = w_filters s /\ w_res s' = w_res s /\ w_issued s' = w_issued s /\
   w_obs s' = w_obs s /\ w_olists s' = w_olists s /\ w_oagg s' = w_oagg s /\ w_log s' = w_log s.
 
+(** *** The local loops of the query operations as top-level fixpoints *)
+Definition q_nt_go (q : qobj) (tables : list nat) : nat -> nat -> MW (option (nat * nat)) :=
+  fix go (fuel : nat) (pos : nat) : MW (option (nat * nat)) :=
+  match fuel with
+  | O => ret None
+  | S f =>
+      match nth_error tables pos with
+      | None => ret None
+      | Some tid =>
+          t <- getT tid ;;
+          if Nat.eqb (t_len t) 0 then go f (S pos)
+          else
+            mt <- of_opt (tbl_matches t (q_rels q)) ENil ;;
+            if mt then ret (Some (pos, tid)) else go f (S pos)
+      end
+  end.
+Lemma q_nt_go_0 : forall q tables pos, q_nt_go q tables 0 pos = ret None.
+Proof. reflexivity. Qed.
+Lemma q_nt_go_S : forall q tables f pos, q_nt_go q tables (S f) pos =
+  match nth_error tables pos with
+  | None => ret None
+  | Some tid =>
+      t <- getT tid ;;
+      if Nat.eqb (t_len t) 0 then q_nt_go q tables f (S pos)
+      else
+        mt <- of_opt (tbl_matches t (q_rels q)) ENil ;;
+        if mt then ret (Some (pos, tid)) else q_nt_go q tables f (S pos)
+  end.
+Proof. reflexivity. Qed.
+
+Lemma q_next_table_eq : forall qi tables cached,
+  query_next_table qi tables cached =
+  (q <- getQ qi ;;
+   r <- q_nt_go q tables (S (length tables)) (q_tab q - 1) ;;
+   match r with
+   | Some (pos, tid) => query_set_table qi pos tid ;;; ret true
+   | None =>
+       modQ qi (fun q => q <| q_tab := Nat.max (q_tab q) (length tables + 1) |>) ;;;
+       whenM cached (query_close qi) ;;;
+       ret false
+   end).
+Proof. reflexivity. Qed.
+
+Definition q_na_go (qi : nat) (archs : list nat) (f : fobj) : nat -> nat -> MW bool :=
+  fix go (fuel : nat) (pos : nat) : MW bool :=
+  match fuel with
+  | O => ret false
+  | S fu =>
+      match nth_error archs pos with
+      | None => ret false
+      | Some aid =>
+          modQ qi (fun q => q <| q_arch := pos + 2 |>) ;;;
+          a <- getA aid ;;
+          if negb (filter_matches f (a_mask a)) then go fu (S pos)
+          else if negb (arch_has_rels a) then
+            match a_tables a with
+            | [] => fail EIndex
+            | t0 :: _ =>
+                t <- getT t0 ;;
+                if Nat.ltb 0 (t_len t) then query_set_table qi 0 t0 ;;; ret true
+                else go fu (S pos)
+            end
+          else
+            q <- getQ qi ;;
+            tabs <- of_opt (arch_get_tables a (q_rels q)) EIndex ;;
+            modQ qi (fun q => q <| q_tables := tabs |> <| q_tab := 1 |>) ;;;
+            found <- query_next_table qi tabs false ;;
+            if found then ret true else go fu (S pos)
+      end
+  end.
+Lemma q_na_go_0 : forall qi archs f pos, q_na_go qi archs f 0 pos = ret false.
+Proof. reflexivity. Qed.
+Lemma q_na_go_S : forall qi archs f fu pos, q_na_go qi archs f (S fu) pos =
+  match nth_error archs pos with
+  | None => ret false
+  | Some aid =>
+      modQ qi (fun q => q <| q_arch := pos + 2 |>) ;;;
+      a <- getA aid ;;
+      if negb (filter_matches f (a_mask a)) then q_na_go qi archs f fu (S pos)
+      else if negb (arch_has_rels a) then
+        match a_tables a with
+        | [] => fail EIndex
+        | t0 :: _ =>
+            t <- getT t0 ;;
+            if Nat.ltb 0 (t_len t) then query_set_table qi 0 t0 ;;; ret true
+            else q_na_go qi archs f fu (S pos)
+        end
+      else
+        q <- getQ qi ;;
+        tabs <- of_opt (arch_get_tables a (q_rels q)) EIndex ;;
+        modQ qi (fun q => q <| q_tables := tabs |> <| q_tab := 1 |>) ;;;
+        found <- query_next_table qi tabs false ;;
+        if found then ret true else q_na_go qi archs f fu (S pos)
+  end.
+Proof. reflexivity. Qed.
+
+Lemma q_next_archetype_eq : forall qi,
+  query_next_archetype qi =
+  (modQ qi (fun q => q <| q_tables := [] |>) ;;;
+   q <- getQ qi ;;
+   guard (Nat.leb 1 (q_arch q)) EIndex ;;;
+   s <- get ;;
+   f <- getF (q_filter q) ;;
+   r <- q_na_go qi (query_archetypes s q) f (S (length (query_archetypes s q))) (q_arch q - 1) ;;
+   if r then ret true else query_close qi ;;; ret false).
+Proof. reflexivity. Qed.
+
+Definition q_tm_go (s : W) (rels : list rel) (need_nonempty : bool) : list nat -> list nat -> res W (list nat) :=
+  fix go (l : list nat) (acc : list nat) : res W (list nat) :=
+  match l with
+  | [] => Ok (rev acc) s
+  | tid :: rest =>
+      match nth_error (w_tables s) tid with
+      | None => Err EIndex s
+      | Some t =>
+          if (need_nonempty && Nat.eqb (t_len t) 0)%bool then go rest acc
+          else match tbl_matches t rels with
+               | None => Err ENil s
+               | Some true => go rest (tid :: acc)
+               | Some false => go rest acc
+               end
+      end
+  end.
+Lemma q_tm_go_nil : forall s rels ne acc, q_tm_go s rels ne [] acc = Ok (rev acc) s.
+Proof. reflexivity. Qed.
+Lemma q_tm_go_cons : forall s rels ne tid rest acc, q_tm_go s rels ne (tid :: rest) acc =
+  match nth_error (w_tables s) tid with
+  | None => Err EIndex s
+  | Some t =>
+      if (ne && Nat.eqb (t_len t) 0)%bool then q_tm_go s rels ne rest acc
+      else match tbl_matches t rels with
+           | None => Err ENil s
+           | Some true => q_tm_go s rels ne rest (tid :: acc)
+           | Some false => q_tm_go s rels ne rest acc
+           end
+  end.
+Proof. reflexivity. Qed.
+
+Lemma q_tables_matching_eq : forall s tabs rels ne, tables_matching s tabs rels ne = q_tm_go s rels ne tabs [].
+Proof. reflexivity. Qed.
+
+Definition q_walk_go (f : fobj) (q : qobj) : list nat -> list (nat * nat) -> MW (list (nat * nat)) :=
+  fix go (l : list nat) (acc : list (nat * nat)) : MW (list (nat * nat)) :=
+  match l with
+  | [] => ret acc
+  | aid :: rest =>
+      a <- getA aid ;;
+      if negb (filter_matches f (a_mask a)) then go rest acc
+      else if negb (arch_has_rels a) then
+        match a_tables a with
+        | t0 :: _ => t <- getT t0 ;; go rest (acc ++ [(t0, t_len t)])
+        | [] => fail EIndex
+        end
+      else
+        cand <- of_opt (arch_get_tables a (q_rels q)) EIndex ;;
+        ts <- (fun s => count_tables s cand (q_rels q) false) ;;
+        go rest (acc ++ ts)
+  end.
+Lemma q_walk_go_nil : forall f q acc, q_walk_go f q [] acc = ret acc.
+Proof. reflexivity. Qed.
+Lemma q_walk_go_cons : forall f q aid rest acc, q_walk_go f q (aid :: rest) acc =
+  (a <- getA aid ;;
+   if negb (filter_matches f (a_mask a)) then q_walk_go f q rest acc
+   else if negb (arch_has_rels a) then
+     match a_tables a with
+     | t0 :: _ => t <- getT t0 ;; q_walk_go f q rest (acc ++ [(t0, t_len t)])
+     | [] => fail EIndex
+     end
+   else
+     cand <- of_opt (arch_get_tables a (q_rels q)) EIndex ;;
+     ts <- (fun s => count_tables s cand (q_rels q) false) ;;
+     q_walk_go f q rest (acc ++ ts)).
+Proof. reflexivity. Qed.
+
+Lemma q_walk_eq : forall qi,
+  query_walk qi =
+  (q <- getQ qi ;;
+   s <- get ;;
+   match q_cache q with
+   | Some addr =>
+       e <- of_opt (nth_error (w_cheap s) addr) EIndex ;;
+       (fun s => count_tables s (ce_tables e) (q_rels q) true)
+   | None =>
+       f <- getF (q_filter q) ;;
+       q_walk_go f q (query_archetypes s q) []
+   end).
+Proof. reflexivity. Qed.
+
+Definition q_eat_go (index : nat) : list (nat * nat) -> nat -> MW ent :=
+  fix go (l : list (nat * nat)) (count : nat) : MW ent :=
+  match l with
+  | [] => fail EIndex
+  | (tid, len) :: rest =>
+      if Nat.ltb index (count + len) then
+        t <- getT tid ;; of_opt (nth_error (t_ents t) (index - count)) EIndex
+      else go rest (count + len)
+  end.
+Lemma q_eat_go_nil : forall index count, q_eat_go index [] count = fail EIndex.
+Proof. reflexivity. Qed.
+Lemma q_eat_go_cons : forall index tid len rest count, q_eat_go index ((tid, len) :: rest) count =
+  if Nat.ltb index (count + len) then
+    t <- getT tid ;; of_opt (nth_error (t_ents t) (index - count)) EIndex
+  else q_eat_go index rest (count + len).
+Proof. reflexivity. Qed.
+
+Lemma q_entity_at_eq : forall qi index,
+  query_entity_at qi index = (w <- query_walk qi ;; q_eat_go index w 0).
+Proof. reflexivity. Qed.
+
+(** *** Frame framework: computations that only change [w_queries] and [w_lock] *)
+Definition q_fr {A} (m : MW A) : Prop := forall s, query_frame s (state_of (m s)).
+
+Lemma q_frame_refl : forall s, query_frame s s.
+Proof. intros s. unfold query_frame. repeat split. Qed.
+Lemma q_frame_trans : forall s1 s2 s3, query_frame s1 s2 -> query_frame s2 s3 -> query_frame s1 s3.
+Proof.
+  unfold query_frame. intros s1 s2 s3 H1 H2.
+  repeat match goal with H : _ /\ _ |- _ => destruct H end.
+  repeat split; congruence.
+Qed.
+
+Lemma q_fr_readonly : forall A (m : MW A), readonly m -> q_fr m.
+Proof. intros A m H s. rewrite H. apply q_frame_refl. Qed.
+Lemma q_fr_ret : forall A (a : A), q_fr (ret a).
+Proof. intros A a s. apply q_frame_refl. Qed.
+Lemma q_fr_fail : forall A e, q_fr (@fail W A e).
+Proof. intros A e s. apply q_frame_refl. Qed.
+Lemma q_fr_get : q_fr (@get W).
+Proof. intros s. apply q_frame_refl. Qed.
+Lemma q_fr_guard : forall b e, q_fr (@guard W b e).
+Proof. intros b e s. destruct b; apply q_frame_refl. Qed.
+Lemma q_fr_of_opt : forall A (o : option A) e, q_fr (@of_opt W A o e).
+Proof. intros A o e s. destruct o; apply q_frame_refl. Qed.
+Lemma q_fr_bind : forall A B (m : MW A) (k : A -> MW B), q_fr m -> (forall a, q_fr (k a)) -> q_fr (bind m k).
+Proof.
+  intros A B m k Hm Hk s. unfold bind. specialize (Hm s).
+  destruct (m s) as [a s'|e s'] eqn:E; cbn in Hm; [|exact Hm].
+  eapply q_frame_trans; [exact Hm | apply Hk].
+Qed.
+Lemma q_fr_modify : forall f : W -> W, (forall s, query_frame s (f s)) -> q_fr (modify f).
+Proof. intros f H s. apply H. Qed.
+Lemma q_fr_put_queries : forall (s0 : W) l, query_frame s0 (s0 <| w_queries := l |>).
+Proof. intros. unfold query_frame. cbn. repeat split. Qed.
+Lemma q_fr_whenM : forall b m, q_fr m -> q_fr (whenM b m).
+Proof. intros b m H. destruct b; [exact H | apply q_fr_ret]. Qed.
+Lemma q_fr_modQ : forall qi f, q_fr (modQ qi f).
+Proof. intros qi f s. unfold modQ, modify, query_frame. cbn. repeat split. Qed.
+Lemma q_fr_lockM : q_fr lockM.
+Proof.
+  intros s. unfold lockM, bind, get. destruct (lock_lock (w_lock s)) as [[b l']|]; cbn;
+    unfold query_frame; cbn; repeat split.
+Qed.
+Lemma q_fr_unlockM : forall b, q_fr (unlockM b).
+Proof.
+  intros b s. unfold unlockM, bind, get. destruct (lock_unlock (w_lock s) b) as [l'|]; cbn;
+    unfold query_frame; cbn; repeat split.
+Qed.
+Lemma q_fr_getQ : forall qi, q_fr (getQ qi).
+Proof. intros qi. apply q_fr_readonly. unfold getQ; ro. Qed.
+Lemma q_fr_getT : forall i, q_fr (getT i).
+Proof. intros i. apply q_fr_readonly, readonly_getT. Qed.
+Lemma q_fr_getA : forall i, q_fr (getA i).
+Proof. intros i. apply q_fr_readonly. unfold getA; ro. Qed.
+Lemma q_fr_getF : forall i, q_fr (getF i).
+Proof. intros i. apply q_fr_readonly, readonly_getF. Qed.
+
+Ltac q_fr_step :=
+  lazymatch goal with
+  | |- q_fr (ret _) => apply q_fr_ret
+  | |- q_fr (fail _) => apply q_fr_fail
+  | |- q_fr get => apply q_fr_get
+  | |- q_fr (guard _ _) => apply q_fr_guard
+  | |- q_fr (of_opt _ _) => apply q_fr_of_opt
+  | |- q_fr (modQ _ _) => apply q_fr_modQ
+  | |- q_fr (getQ _) => apply q_fr_getQ
+  | |- q_fr (getT _) => apply q_fr_getT
+  | |- q_fr (getA _) => apply q_fr_getA
+  | |- q_fr (getF _) => apply q_fr_getF
+  | |- q_fr lockM => apply q_fr_lockM
+  | |- q_fr (unlockM _) => apply q_fr_unlockM
+  | |- q_fr (whenM _ _) => apply q_fr_whenM
+  | |- q_fr (bind _ _) => apply q_fr_bind; [| intros ?]
+  end.
+Ltac q_fr_tac := repeat q_fr_step.
+
+Lemma q_fr_close : forall qi, q_fr (query_close qi).
+Proof. intros qi. unfold query_close. q_fr_tac. destruct (Nat.ltb _ _); q_fr_tac. Qed.
+
+Lemma q_fr_set_table : forall qi pos tid, q_fr (query_set_table qi pos tid).
+Proof. intros. unfold query_set_table. q_fr_tac. Qed.
+
+Lemma q_fr_nt_go : forall q tables fuel pos, q_fr (q_nt_go q tables fuel pos).
+Proof.
+  intros q tables fuel. induction fuel as [|fu IH]; intros pos; [rewrite q_nt_go_0; apply q_fr_ret | rewrite q_nt_go_S].
+  destruct (nth_error tables pos) as [tid|]; [|apply q_fr_ret].
+  q_fr_tac. destruct (Nat.eqb _ _); [apply IH|]. q_fr_tac.
+  match goal with |- q_fr (if ?b then _ else _) => destruct b end; [apply q_fr_ret | apply IH].
+Qed.
+
+Lemma q_fr_next_table : forall qi tables cached, q_fr (query_next_table qi tables cached).
+Proof.
+  intros. rewrite q_next_table_eq. q_fr_tac; [apply q_fr_nt_go|].
+  match goal with |- q_fr (match ?r with _ => _ end) => destruct r as [[pos tid]|] end; q_fr_tac.
+  - apply q_fr_set_table.
+  - apply q_fr_close.
+Qed.
+
+Lemma q_fr_na_go : forall qi archs f fuel pos, q_fr (q_na_go qi archs f fuel pos).
+Proof.
+  intros qi archs f fuel. induction fuel as [|fu IH]; intros pos; [rewrite q_na_go_0; apply q_fr_ret | rewrite q_na_go_S].
+  destruct (nth_error archs pos) as [aid|]; [|apply q_fr_ret].
+  q_fr_tac. destruct (negb (filter_matches f _)); [apply IH|].
+  destruct (negb (arch_has_rels _)).
+  - destruct (a_tables _) as [|t0 ?]; q_fr_tac. destruct (Nat.ltb _ _); [|apply IH]. q_fr_tac. apply q_fr_set_table.
+  - q_fr_tac; [apply q_fr_next_table|].
+    match goal with |- q_fr (if ?b then _ else _) => destruct b end; [apply q_fr_ret | apply IH].
+Qed.
+
+Lemma q_fr_next_archetype : forall qi, q_fr (query_next_archetype qi).
+Proof.
+  intros. rewrite q_next_archetype_eq. q_fr_tac; [apply q_fr_na_go|].
+  match goal with |- q_fr (if ?b then _ else _) => destruct b end; q_fr_tac. apply q_fr_close.
+Qed.
+
+Lemma q_fr_next_toa : forall qi, q_fr (query_next_table_or_archetype qi).
+Proof.
+  intros. unfold query_next_table_or_archetype. q_fr_tac.
+  match goal with |- q_fr (match q_cache ?q with _ => _ end) => destruct (q_cache q) end.
+  - q_fr_tac. apply q_fr_next_table.
+  - destruct (Nat.leb _ _); [|apply q_fr_next_archetype].
+    q_fr_tac; [apply q_fr_next_table|].
+    match goal with |- q_fr (if ?b then _ else _) => destruct b end; [apply q_fr_ret | apply q_fr_next_archetype].
+Qed.
+
 Theorem query_open_frame : forall fi rels s, query_frame s (state_of (query_open fi rels s)).
-Admitted.
+Proof.
+  intros fi rels. change (q_fr (query_open fi rels)). unfold query_open.
+  apply q_fr_bind; [apply q_fr_getF | intros f].
+  apply q_fr_bind; [apply q_fr_whenM, q_fr_readonly, readonly_to_relations | intros _].
+  apply q_fr_bind; [apply q_fr_get | intros s0].
+  apply q_fr_bind; [destruct (f_cache f); q_fr_tac | intros cache].
+  apply q_fr_bind; [apply q_fr_lockM | intros b].
+  intros s. unfold bind, get, put, ret. cbn. apply q_fr_put_queries.
+Qed.
 Theorem query_next_frame : forall d qi s, query_frame s (state_of (query_next d qi s)).
-Admitted.
+Proof.
+  intros d qi. change (q_fr (query_next d qi)). unfold query_next. q_fr_tac.
+  match goal with |- q_fr (match q_max ?q with _ => _ end) => destruct (q_max q) end; [|apply q_fr_next_toa].
+  destruct (Nat.ltb _ _); [q_fr_tac | apply q_fr_next_toa].
+Qed.
 Theorem query_close_frame : forall qi s, query_frame s (state_of (query_close qi s)).
-Admitted.
+Proof. intros qi. apply q_fr_close. Qed.
+
+(** *** Count / EntityAt / Entity are read-only *)
+Lemma q_ro_tm_go : forall s rels ne l acc, state_of (q_tm_go s rels ne l acc) = s.
+Proof.
+  intros s rels ne l. induction l as [|tid rest IH]; intros acc; [reflexivity | rewrite q_tm_go_cons].
+  destruct (nth_error (w_tables s) tid) as [t|]; [|reflexivity].
+  destruct (ne && Nat.eqb (t_len t) 0)%bool; [apply IH|].
+  destruct (tbl_matches t rels) as [[|]|]; [apply IH | apply IH | reflexivity].
+Qed.
+Lemma q_ro_count_tables : forall tabs rels ne, readonly (fun s => count_tables s tabs rels ne).
+Proof.
+  intros tabs rels ne s. unfold count_tables. rewrite q_tables_matching_eq.
+  pose proof (q_ro_tm_go s rels ne tabs []) as H. destruct (q_tm_go s rels ne tabs []); exact H.
+Qed.
+Lemma q_ro_getQ : forall qi, readonly (getQ qi).
+Proof. intros. unfold getQ; ro. Qed.
+Lemma q_ro_getA : forall i, readonly (getA i).
+Proof. intros. unfold getA; ro. Qed.
+Lemma q_ro_walk_go : forall f q l acc, readonly (q_walk_go f q l acc).
+Proof.
+  intros f q l. induction l as [|aid rest IH]; intros acc; [apply readonly_ret | rewrite q_walk_go_cons].
+  apply readonly_bind; [apply q_ro_getA | intros a].
+  destruct (negb (filter_matches f (a_mask a))); [apply IH|].
+  destruct (negb (arch_has_rels a)).
+  - destruct (a_tables a) as [|t0 ?]; [apply readonly_fail|].
+    apply readonly_bind; [apply readonly_getT | intros t; apply IH].
+  - apply readonly_bind; [apply readonly_of_opt | intros cand].
+    apply readonly_bind; [apply q_ro_count_tables | intros ts; apply IH].
+Qed.
+Lemma q_ro_walk : forall qi, readonly (query_walk qi).
+Proof.
+  intros. rewrite q_walk_eq.
+  apply readonly_bind; [apply q_ro_getQ | intros q].
+  apply readonly_bind; [apply readonly_get | intros s].
+  destruct (q_cache q).
+  - apply readonly_bind; [apply readonly_of_opt | intros e; apply q_ro_count_tables].
+  - apply readonly_bind; [apply readonly_getF | intros f; apply q_ro_walk_go].
+Qed.
+Lemma q_ro_eat_go : forall index l count, readonly (q_eat_go index l count).
+Proof.
+  intros index l. induction l as [|[tid len] rest IH]; intros count; [apply readonly_fail | rewrite q_eat_go_cons].
+  destruct (Nat.ltb _ _); [|apply IH].
+  apply readonly_bind; [apply readonly_getT | intros t; apply readonly_of_opt].
+Qed.
+
 Theorem query_count_readonly : forall qi s, state_of (query_count qi s) = s.
-Admitted.
+Proof.
+  intros qi. change (readonly (query_count qi)). unfold query_count.
+  apply readonly_bind; [apply q_ro_walk | intros w; apply readonly_ret].
+Qed.
 Theorem query_entity_at_readonly : forall qi i s, state_of (query_entity_at qi i s) = s.
-Admitted.
+Proof.
+  intros qi i. change (readonly (query_entity_at qi i)). rewrite q_entity_at_eq.
+  apply readonly_bind; [apply q_ro_walk | intros w; apply q_ro_eat_go].
+Qed.
 Theorem query_entity_readonly : forall d qi s, state_of (query_entity d qi s) = s.
-Admitted.
+Proof.
+  intros d qi. change (readonly (query_entity d qi)). unfold query_entity.
+  apply readonly_bind; [apply q_ro_getQ | intros q].
+  apply readonly_bind; [destruct d; [apply readonly_guard | apply readonly_ret] | intros _].
+  apply readonly_bind; [apply readonly_of_opt | intros tid].
+  apply readonly_bind; [apply readonly_getT | intros t; apply readonly_of_opt].
+Qed.
 
 (** ** Count and EntityAt agree with the walk *)
 Theorem query_count_is_walk_sum : forall qi s w s',
   query_walk qi s = Ok w s' -> query_count qi s = Ok (fold_left (fun acc p => acc + snd p) w 0) s'.
-Admitted.
+Proof. intros qi s w s' H. unfold query_count, bind. rewrite H. reflexivity. Qed.
 
 (** EntityAt i is the i-th entity of the concatenated rows of the walked tables, and fails exactly
     beyond the count. *)
@@ -55,6 +473,47 @@ Definition walk_rows (s : W) (w : list (nat * nat)) : list ent :=
                                  | Some t => firstn (snd p) (t_ents t)
                                  | None => [] end) w.
 
+Lemma q_nth_error_firstn : forall A (l : list A) n i, i < n -> nth_error (firstn n l) i = nth_error l i.
+Proof.
+  intros A l. induction l as [|x l IH]; intros n i H.
+  - rewrite firstn_nil. reflexivity.
+  - destruct n as [|n]; [lia|]. destruct i as [|i]; cbn; [reflexivity|]. apply IH. lia.
+Qed.
+
+Lemma q_walk_rows_cons : forall s p w, walk_rows s (p :: w) =
+  match nth_error (w_tables s) (fst p) with Some t => firstn (snd p) (t_ents t) | None => [] end ++ walk_rows s w.
+Proof. reflexivity. Qed.
+Lemma q_walk_rows_app : forall s w1 w2, walk_rows s (w1 ++ w2) = walk_rows s w1 ++ walk_rows s w2.
+Proof. intros. unfold walk_rows. apply flat_map_app. Qed.
+
+Lemma q_eat_go_spec : forall s i w count,
+  (forall p, In p w -> exists t, nth_error (w_tables s) (fst p) = Some t /\ snd p = t_len t /\ t_len t <= length (t_ents t)) ->
+  count <= i ->
+  match q_eat_go i w count s with
+  | Ok e s' => s' = s /\ nth_error (walk_rows s w) (i - count) = Some e
+  | Err _ s' => s' = s /\ length (walk_rows s w) + count <= i
+  end.
+Proof.
+  intros s i w. induction w as [|[tid len] rest IH]; intros count Hw Hc.
+  - rewrite q_eat_go_nil. cbn. split; [reflexivity | lia].
+  - rewrite q_eat_go_cons, q_walk_rows_cons. cbn [fst snd].
+    destruct (Hw (tid, len) (or_introl eq_refl)) as (t & Ht & Hl & Hle). cbn [fst snd] in Ht, Hl.
+    rewrite Ht.
+    assert (Hfl : length (firstn len (t_ents t)) = len) by (rewrite firstn_length; lia).
+    destruct (Nat.ltb_spec i (count + len)) as [Hlt|Hge].
+    + unfold bind. rewrite (sa_getT_eq s tid t Ht).
+      rewrite nth_error_app1 by lia. rewrite q_nth_error_firstn by lia.
+      destruct (nth_error (t_ents t) (i - count)) eqn:E; cbn.
+      * split; reflexivity.
+      * apply nth_error_None in E. lia.
+    + specialize (IH (count + len) (fun p Hp => Hw p (or_intror Hp)) Hge).
+      destruct (q_eat_go i rest (count + len) s) as [e s'|e s'].
+      * destruct IH as [-> IH]. split; [reflexivity|].
+        rewrite nth_error_app2 by lia. rewrite Hfl.
+        replace (i - count - len) with (i - (count + len)) by lia. exact IH.
+      * destruct IH as [-> IH]. split; [reflexivity|]. rewrite app_length. lia.
+Qed.
+
 Theorem query_entity_at_spec : forall qi s w i,
   query_walk qi s = Ok w s ->
   (forall p, In p w -> exists t, nth_error (w_tables s) (fst p) = Some t /\ snd p = t_len t /\ t_len t <= length (t_ents t)) ->
@@ -62,7 +521,13 @@ Theorem query_entity_at_spec : forall qi s w i,
   | Ok e s' => s' = s /\ nth_error (walk_rows s w) i = Some e
   | Err _ s' => s' = s /\ length (walk_rows s w) <= i
   end.
-Admitted.
+Proof.
+  intros qi s w i Hw Hp. rewrite q_entity_at_eq. unfold bind. rewrite Hw.
+  pose proof (q_eat_go_spec s i w 0 Hp (Nat.le_0_l i)) as H.
+  destruct (q_eat_go i w 0 s) as [e s'|e s'].
+  - rewrite Nat.sub_0_r in H. exact H.
+  - rewrite Nat.add_0_r in H. exact H.
+Qed.
 
 (** ** The cursor visits exactly the walked rows, in order (uncached and cached queries).
     [drain d fuel qi s]: call Next/Entity until Next returns false, collecting the entities. *)
@@ -84,6 +549,613 @@ Fixpoint drain (d : bool) (fuel : nat) (qi : nat) (s : W) : res W (list ent) :=
       end
   end.
 
+(** *** List helpers *)
+Lemma q_skipn_nth : forall A (l : list A) n x, nth_error l n = Some x -> skipn n l = x :: skipn (S n) l.
+Proof.
+  intros A l. induction l as [|y l IH]; intros n x H; destruct n as [|n]; cbn in H; try discriminate.
+  - inversion H. reflexivity.
+  - cbn [skipn]. rewrite (IH n x H). reflexivity.
+Qed.
+Lemma q_skipn_none : forall A (l : list A) n, nth_error l n = None -> skipn n l = [].
+Proof. intros A l n H. apply skipn_all2. apply nth_error_None. exact H. Qed.
+Arguments q_skipn_nth {A l n x} _.
+Arguments q_skipn_none {A l n} _.
+Lemma q_upd_upd : forall A (l : list A) i x y, upd i y (upd i x l) = upd i y l.
+Proof.
+  intros A l. induction l as [|h l IH]; intros i x y; [destruct i; reflexivity|].
+  destruct i as [|i]; cbn; [reflexivity|]. rewrite IH. reflexivity.
+Qed.
+Lemma q_upd_same : forall A (l : list A) i x, nth_error l i = Some x -> upd i x l = l.
+Proof.
+  intros A l. induction l as [|h l IH]; intros i x H; [destruct i; reflexivity|].
+  destruct i as [|i]; cbn in *; [congruence|]. rewrite IH by exact H. reflexivity.
+Qed.
+Lemma q_updf_upd : forall A (f : A -> A) (l : list A) i x, i < length l -> updf i f (upd i x l) = upd i (f x) l.
+Proof.
+  intros A f l i x H. unfold updf. rewrite sa_nth_error_upd_eq by exact H. apply q_upd_upd.
+Qed.
+
+(** *** Monadic inversion helpers *)
+Lemma q_getQ_eq : forall s qi q, nth_error (w_queries s) qi = Some q -> getQ qi s = Ok q s.
+Proof. intros s qi q H. unfold getQ, bind, get, of_opt. rewrite H. reflexivity. Qed.
+Lemma q_bind_ret : forall A B (a : A) (k : A -> MW B) s, bind (ret a) k s = k a s.
+Proof. reflexivity. Qed.
+Lemma q_bind_get : forall B (k : W -> MW B) s, bind get k s = k s s.
+Proof. reflexivity. Qed.
+Lemma q_bind_fail : forall A B e (k : A -> MW B) s, bind (fail e) k s = Err e s.
+Proof. reflexivity. Qed.
+Lemma q_bind_inv : forall A B (m : MW A) (k : A -> MW B) s b s',
+  bind m k s = Ok b s' -> exists a s1, m s = Ok a s1 /\ k a s1 = Ok b s'.
+Proof. intros A B m k s b s' H. unfold bind in H. destruct (m s) as [a s1|]; [eauto | discriminate]. Qed.
+Lemma q_getA_inv : forall i s a s1, getA i s = Ok a s1 -> s1 = s /\ nth_error (w_archs s) i = Some a.
+Proof. intros i s a s1 H. unfold getA, bind, get, of_opt in H. destruct (nth_error (w_archs s) i); inversion H; auto. Qed.
+Lemma q_getT_inv : forall i s a s1, getT i s = Ok a s1 -> s1 = s /\ nth_error (w_tables s) i = Some a.
+Proof. intros i s a s1 H. unfold getT, bind, get, of_opt in H. destruct (nth_error (w_tables s) i); inversion H; auto. Qed.
+Lemma q_getF_inv : forall i s a s1, getF i s = Ok a s1 -> s1 = s /\ nth_error (w_filters s) i = Some a.
+Proof. intros i s a s1 H. unfold getF, bind, get, of_opt in H. destruct (nth_error (w_filters s) i); inversion H; auto. Qed.
+Lemma q_getQ_inv : forall i s a s1, getQ i s = Ok a s1 -> s1 = s /\ nth_error (w_queries s) i = Some a.
+Proof. intros i s a s1 H. unfold getQ, bind, get, of_opt in H. destruct (nth_error (w_queries s) i); inversion H; auto. Qed.
+Lemma q_of_opt_inv : forall A (o : option A) e (s : W) a s1, of_opt o e s = Ok a s1 -> s1 = s /\ o = Some a.
+Proof. intros A o e s a s1 H. destruct o; inversion H; auto. Qed.
+Lemma q_getF_eq : forall s i f, nth_error (w_filters s) i = Some f -> getF i s = Ok f s.
+Proof. intros s i f H. unfold getF, bind, get, of_opt. rewrite H. reflexivity. Qed.
+
+(** *** The rows a cursor still has to visit, as pure functions of the tables/archetypes *)
+Fixpoint q_trows (T : list table) (rels : list rel) (L : list nat) : option (list ent) :=
+  match L with
+  | [] => Some []
+  | tid :: rest =>
+      match nth_error T tid with
+      | None => None
+      | Some t =>
+          if Nat.eqb (t_len t) 0 then q_trows T rels rest
+          else match tbl_matches t rels with
+               | None => None
+               | Some true => match q_trows T rels rest with
+                              | Some r => Some (firstn (t_len t) (t_ents t) ++ r)
+                              | None => None
+                              end
+               | Some false => q_trows T rels rest
+               end
+      end
+  end.
+
+Fixpoint q_arows (s : W) (f : fobj) (rels : list rel) (L : list nat) : option (list ent) :=
+  match L with
+  | [] => Some []
+  | aid :: rest =>
+      match nth_error (w_archs s) aid with
+      | None => None
+      | Some a =>
+          if negb (filter_matches f (a_mask a)) then q_arows s f rels rest
+          else if negb (arch_has_rels a) then
+            match a_tables a with
+            | [] => None
+            | t0 :: _ =>
+                match nth_error (w_tables s) t0 with
+                | None => None
+                | Some t => match q_arows s f rels rest with
+                            | Some r => Some (firstn (t_len t) (t_ents t) ++ r)
+                            | None => None
+                            end
+                end
+            end
+          else
+            match arch_get_tables a rels with
+            | None => None
+            | Some tabs =>
+                match q_trows (w_tables s) rels tabs, q_arows s f rels rest with
+                | Some r1, Some r2 => Some (r1 ++ r2)
+                | _, _ => None
+                end
+            end
+      end
+  end.
+
+Definition q_rows_of (T : list table) (l : list nat) : list ent :=
+  flat_map (fun tid => match nth_error T tid with Some t => firstn (t_len t) (t_ents t) | None => [] end) l.
+
+Lemma q_trows_dead : forall T rels L, q_trows T rels L = Some [] -> forall k, q_trows T rels (skipn k L) = Some [].
+Proof.
+  intros T rels L. induction L as [|tid L IH]; intros H k.
+  - rewrite skipn_nil. reflexivity.
+  - destruct k as [|k]; [exact H|]. cbn [skipn]. apply IH. cbn [q_trows] in H.
+    destruct (nth_error T tid) as [t|]; [|discriminate].
+    destruct (Nat.eqb (t_len t) 0); [exact H|].
+    destruct (tbl_matches t rels) as [[|]|]; [|exact H|discriminate].
+    destruct (q_trows T rels L) as [r|]; [|discriminate].
+    injection H as H1. apply app_eq_nil in H1. destruct H1 as [_ H1]. subst r. reflexivity.
+Qed.
+
+(** *** The walk computes the same rows *)
+Lemma q_tm_go_rows : forall s rels ne L acc l s',
+  q_tm_go s rels ne L acc = Ok l s' ->
+  s' = s /\ exists l0, l = rev acc ++ l0 /\ q_trows (w_tables s) rels L = Some (q_rows_of (w_tables s) l0).
+Proof.
+  intros s rels ne L. induction L as [|tid L IH]; intros acc l s' H.
+  - rewrite q_tm_go_nil in H. inversion H. split; [reflexivity|]. exists []. rewrite app_nil_r. split; reflexivity.
+  - rewrite q_tm_go_cons in H. cbn [q_trows].
+    destruct (nth_error (w_tables s) tid) as [t|] eqn:Et; [|discriminate].
+    assert (Hcons : forall l0, q_rows_of (w_tables s) (tid :: l0) = firstn (t_len t) (t_ents t) ++ q_rows_of (w_tables s) l0).
+    { intros l0. unfold q_rows_of. cbn [flat_map]. rewrite Et. reflexivity. }
+    assert (Htrue : q_tm_go s rels ne L (tid :: acc) = Ok l s' ->
+                    s' = s /\ exists l0, l = rev acc ++ l0 /\
+                      match q_trows (w_tables s) rels L with
+                      | Some r => Some (firstn (t_len t) (t_ents t) ++ r) | None => None end
+                      = Some (q_rows_of (w_tables s) l0)).
+    { intros H'. apply IH in H'. destruct H' as (-> & l0 & -> & Hr). split; [reflexivity|].
+      exists (tid :: l0). split; [cbn [rev]; rewrite <- app_assoc; reflexivity|].
+      rewrite Hr, Hcons. reflexivity. }
+    destruct (Nat.eqb (t_len t) 0) eqn:El.
+    + destruct ne; cbn [andb] in H; [apply IH; exact H|].
+      destruct (tbl_matches t rels) as [[|]|]; [|apply IH; exact H|discriminate].
+      apply IH in H. destruct H as (-> & l0 & -> & Hr). split; [reflexivity|].
+      exists (tid :: l0). split; [cbn [rev]; rewrite <- app_assoc; reflexivity|].
+      rewrite Hr, Hcons. apply Nat.eqb_eq in El. rewrite El. reflexivity.
+    + rewrite Bool.andb_false_r in H.
+      destruct (tbl_matches t rels) as [[|]|]; [apply Htrue; exact H|apply IH; exact H|discriminate].
+Qed.
+
+Lemma q_walk_rows_map : forall s l,
+  walk_rows s (map (fun tid => (tid, match nth_error (w_tables s) tid with Some t => t_len t | None => 0 end)) l)
+  = q_rows_of (w_tables s) l.
+Proof.
+  intros s l. induction l as [|tid l IH]; [reflexivity|].
+  cbn [map]. rewrite q_walk_rows_cons, IH. unfold q_rows_of. cbn [flat_map fst snd].
+  destruct (nth_error (w_tables s) tid); reflexivity.
+Qed.
+
+Lemma q_count_tables_rows : forall s L rels ne w s',
+  count_tables s L rels ne = Ok w s' -> s' = s /\ q_trows (w_tables s) rels L = Some (walk_rows s w).
+Proof.
+  intros s L rels ne w s' H. unfold count_tables in H. rewrite q_tables_matching_eq in H.
+  destruct (q_tm_go s rels ne L []) as [l s1|] eqn:E; [|discriminate]. inversion H; subst.
+  apply q_tm_go_rows in E. destruct E as (-> & l0 & -> & Hr). split; [reflexivity|].
+  cbn [rev app]. rewrite q_walk_rows_map. exact Hr.
+Qed.
+
+Lemma q_walk_go_rows : forall f q L acc s w s',
+  q_walk_go f q L acc s = Ok w s' ->
+  s' = s /\ exists w0, w = acc ++ w0 /\ q_arows s f (q_rels q) L = Some (walk_rows s w0).
+Proof.
+  intros f q L. induction L as [|aid L IH]; intros acc s w s' H.
+  - rewrite q_walk_go_nil in H. inversion H. split; [reflexivity|]. exists []. rewrite app_nil_r. split; reflexivity.
+  - rewrite q_walk_go_cons in H. apply q_bind_inv in H. destruct H as (a & s1 & Ha & H).
+    apply q_getA_inv in Ha. destruct Ha as [-> Ea]. cbn [q_arows]. rewrite Ea.
+    destruct (negb (filter_matches f (a_mask a))); [apply IH; exact H|].
+    destruct (negb (arch_has_rels a)).
+    + destruct (a_tables a) as [|t0 ?]; [discriminate|].
+      apply q_bind_inv in H. destruct H as (t & s1 & Ht & H).
+      apply q_getT_inv in Ht. destruct Ht as [-> Et]. rewrite Et.
+      apply IH in H. destruct H as (-> & w0 & -> & Hr). split; [reflexivity|].
+      exists ((t0, t_len t) :: w0). split; [rewrite <- app_assoc; reflexivity|].
+      rewrite Hr, q_walk_rows_cons. cbn [fst snd]. rewrite Et. reflexivity.
+    + apply q_bind_inv in H. destruct H as (cand & s1 & Hc & H).
+      apply q_of_opt_inv in Hc. destruct Hc as [-> Ec]. rewrite Ec.
+      apply q_bind_inv in H. destruct H as (ts & s1 & Hts & H).
+      apply q_count_tables_rows in Hts. destruct Hts as [-> Hts]. rewrite Hts.
+      apply IH in H. destruct H as (-> & w0 & -> & Hr). split; [reflexivity|].
+      exists (ts ++ w0). split; [rewrite <- app_assoc; reflexivity|].
+      rewrite Hr, q_walk_rows_app. reflexivity.
+Qed.
+
+(** *** Symbolic execution of the cursor operations: all states reached while iterating query [qi]
+    are [q_st q'] - the base world with only the query object replaced. *)
+Section QDrain.
+Variable s0 : W.
+Variable qi : nat.
+Hypothesis Hqi : qi < length (w_queries s0).
+Hypothesis Hshape : forall tid t, nth_error (w_tables s0) tid = Some t -> t_len t <= length (t_ents t).
+
+Definition q_st (q : qobj) : W := s0 <| w_queries := upd qi q (w_queries s0) |>.
+
+Lemma q_st_getQ : forall q, getQ qi (q_st q) = Ok q (q_st q).
+Proof. intros q. apply q_getQ_eq. unfold q_st; cbn. apply sa_nth_error_upd_eq. exact Hqi. Qed.
+
+Lemma q_st_modQ : forall f q, modQ qi f (q_st q) = Ok tt (q_st (f q)).
+Proof.
+  intros f q. unfold modQ, modify, q_st. f_equal. unfold set; simpl. rewrite q_updf_upd by exact Hqi. reflexivity.
+Qed.
+
+Lemma q_st_getT : forall q tid t, nth_error (w_tables s0) tid = Some t -> getT tid (q_st q) = Ok t (q_st q).
+Proof. intros q tid t H. apply sa_getT_eq. exact H. Qed.
+Lemma q_st_getA : forall q aid a, nth_error (w_archs s0) aid = Some a -> getA aid (q_st q) = Ok a (q_st q).
+Proof. intros q aid a H. apply sa_getA_eq. exact H. Qed.
+Lemma q_st_getF : forall q i f, nth_error (w_filters s0) i = Some f -> getF i (q_st q) = Ok f (q_st q).
+Proof. intros q i f H. apply q_getF_eq. exact H. Qed.
+
+(** The scan of [query_next_table]. *)
+Lemma q_nt_go_spec : forall q L fuel pos s R,
+  length L < fuel + pos ->
+  q_trows (w_tables s) (q_rels q) (skipn pos L) = Some R ->
+  (exists pos' tid t R', q_nt_go q L fuel pos s = Ok (Some (pos', tid)) s /\ pos <= pos' /\
+      nth_error (w_tables s) tid = Some t /\ 0 < t_len t /\
+      q_trows (w_tables s) (q_rels q) (skipn (S pos') L) = Some R' /\
+      R = firstn (t_len t) (t_ents t) ++ R')
+  \/ (q_nt_go q L fuel pos s = Ok None s /\ R = []).
+Proof.
+  intros q L fuel. induction fuel as [|fu IH]; intros pos s R Hf HR.
+  - right. rewrite skipn_all2 in HR by lia. cbn in HR. split; [reflexivity | congruence].
+  - rewrite q_nt_go_S. destruct (nth_error L pos) as [tid|] eqn:En.
+    + rewrite (q_skipn_nth En) in HR. cbn [q_trows] in HR.
+      destruct (nth_error (w_tables s) tid) as [t|] eqn:Et; [|discriminate].
+      rewrite (sa_bind_ok (sa_getT_eq s tid t Et)).
+      destruct (Nat.eqb (t_len t) 0) eqn:El.
+      * destruct (IH (S pos) s R ltac:(lia) HR) as [(pos' & tid' & t' & R' & H1 & H2 & H3)|H]; [left|right; exact H].
+        exists pos', tid', t', R'. split; [exact H1|]. split; [lia | exact H3].
+      * apply Nat.eqb_neq in El.
+        destruct (tbl_matches t (q_rels q)) as [[|]|]; [| |discriminate].
+        -- left. destruct (q_trows (w_tables s) (q_rels q) (skipn (S pos) L)) as [R'|] eqn:ER; [|discriminate].
+           exists pos, tid, t, R'. cbn. repeat split; try lia; try assumption. congruence.
+        -- cbn [of_opt]. rewrite q_bind_ret.
+           destruct (IH (S pos) s R ltac:(lia) HR) as [(pos' & tid' & t' & R' & H1 & H2 & H3)|H]; [left|right; exact H].
+           exists pos', tid', t', R'. split; [exact H1|]. split; [lia | exact H3].
+    + right. rewrite (q_skipn_none En) in HR. cbn in HR. split; [reflexivity | congruence].
+Qed.
+
+Definition q_at (q : qobj) (pos tid : nat) (t : table) : qobj :=
+  q <| q_tab := pos + 2 |> <| q_table := Some tid |> <| q_index := 0 |> <| q_max := Some (t_len t - 1) |>.
+
+Lemma q_set_table_spec : forall q pos tid t,
+  nth_error (w_tables s0) tid = Some t -> 0 < t_len t ->
+  query_set_table qi pos tid (q_st q) = Ok tt (q_st (q_at q pos tid t)).
+Proof.
+  intros q pos tid t Ht Hl. unfold query_set_table.
+  rewrite (sa_bind_ok (q_st_getT q tid t Ht)). rewrite q_st_modQ. unfold q_at.
+  destruct (Nat.eqb_spec (t_len t) 0); [lia | reflexivity].
+Qed.
+
+Lemma q_next_table_spec : forall q L cached R,
+  1 <= q_tab q ->
+  q_trows (w_tables s0) (q_rels q) (skipn (q_tab q - 1) L) = Some R ->
+  (exists pos tid t R', query_next_table qi L cached (q_st q) = Ok true (q_st (q_at q pos tid t)) /\
+      nth_error (w_tables s0) tid = Some t /\ 0 < t_len t /\
+      q_trows (w_tables s0) (q_rels q) (skipn (S pos) L) = Some R' /\
+      R = firstn (t_len t) (t_ents t) ++ R')
+  \/ (R = [] /\
+      query_next_table qi L cached (q_st q) =
+      bind (whenM cached (query_close qi)) (fun _ => ret false)
+           (q_st (q <| q_tab := Nat.max (q_tab q) (length L + 1) |>))).
+Proof.
+  intros q L cached R Hq HR. rewrite q_next_table_eq.
+  rewrite (sa_bind_ok (q_st_getQ q)).
+  destruct (q_nt_go_spec q L (S (length L)) (q_tab q - 1) (q_st q) R ltac:(lia) HR)
+    as [(pos & tid & t & R' & H1 & H2 & H3 & H4 & H5 & H6)|[H1 H2]].
+  - left. exists pos, tid, t, R'. rewrite (sa_bind_ok H1).
+    rewrite (sa_bind_ok (q_set_table_spec q pos tid t H3 H4)). repeat split; assumption.
+  - right. split; [exact H2|]. rewrite (sa_bind_ok H1). rewrite (sa_bind_ok (q_st_modQ _ q)). reflexivity.
+Qed.
+
+Lemma q_next_table_uncached : forall q L R,
+  1 <= q_tab q ->
+  q_trows (w_tables s0) (q_rels q) (skipn (q_tab q - 1) L) = Some R ->
+  (exists pos tid t R', query_next_table qi L false (q_st q) = Ok true (q_st (q_at q pos tid t)) /\
+      nth_error (w_tables s0) tid = Some t /\ 0 < t_len t /\
+      q_trows (w_tables s0) (q_rels q) (skipn (S pos) L) = Some R' /\
+      R = firstn (t_len t) (t_ents t) ++ R')
+  \/ (R = [] /\
+      query_next_table qi L false (q_st q) = Ok false (q_st (q <| q_tab := Nat.max (q_tab q) (length L + 1) |>))).
+Proof.
+  intros q L R Hq HR. destruct (q_next_table_spec q L false R Hq HR) as [H|[H1 H2]]; [left; exact H|].
+  right. split; [exact H1|]. rewrite H2. reflexivity.
+Qed.
+
+(** A finished iteration: the query object is closed and its lock bit released. *)
+Definition q_final (b : nat) (s' : W) : Prop :=
+  exists qc l', s' = s0 <| w_queries := upd qi qc (w_queries s0) |> <| w_lock := l' |> /\
+                q_tab qc = 0 /\ mk_get (lk_mask l') b = false.
+
+Lemma q_close_spec : forall q,
+  1 <= q_tab q -> mk_get (lk_mask (w_lock s0)) (q_lock q) = true ->
+  exists s', query_close qi (q_st q) = Ok tt s' /\ q_final (q_lock q) s'.
+Proof.
+  intros q Hq Hl. unfold query_close. rewrite (sa_bind_ok (q_st_getQ q)).
+  destruct (Nat.ltb_spec (q_tab q) 1); [lia|].
+  rewrite (sa_bind_ok (q_st_modQ _ q)).
+  unfold unlockM, bind, get, lock_unlock. cbn. rewrite Hl. cbn.
+  eexists. split; [reflexivity|]. eexists _, _. split; [reflexivity|]. cbn.
+  split; [reflexivity|]. rewrite mk_get_clear, Nat.eqb_refl. reflexivity.
+Qed.
+
+Definition q_static (q q' : qobj) : Prop :=
+  q_filter q' = q_filter q /\ q_rels q' = q_rels q /\ q_cache q' = q_cache q /\
+  q_lock q' = q_lock q /\ q_rare q' = q_rare q.
+Lemma q_static_refl : forall q, q_static q q.
+Proof. intros q. unfold q_static. repeat split. Qed.
+Lemma q_static_trans : forall q1 q2 q3, q_static q1 q2 -> q_static q2 q3 -> q_static q1 q3.
+Proof. unfold q_static. intros q1 q2 q3 (?&?&?&?&?) (?&?&?&?&?). repeat split; congruence. Qed.
+
+(** The cursor points at row 0 of the non-empty table [tid]. *)
+Definition q_cur (q : qobj) (tid : nat) (t : table) : Prop :=
+  q_table q = Some tid /\ nth_error (w_tables s0) tid = Some t /\ 0 < t_len t /\
+  q_max q = Some (t_len t - 1) /\ q_index q = 0 /\ 2 <= q_tab q.
+
+Lemma q_cur_at : forall q pos tid t, nth_error (w_tables s0) tid = Some t -> 0 < t_len t -> q_cur (q_at q pos tid t) tid t.
+Proof. intros. unfold q_cur, q_at. cbn. repeat split; try assumption; lia. Qed.
+
+(** The archetype loop. *)
+Lemma q_na_go_spec : forall archs f fuel pos q R,
+  length archs < fuel + pos -> 1 <= q_tab q ->
+  q_arows s0 f (q_rels q) (skipn pos archs) = Some R ->
+  (forall k, q_trows (w_tables s0) (q_rels q) (skipn k (q_tables q)) = Some []) ->
+  (exists q' tid t R1 R2, q_na_go qi archs f fuel pos (q_st q) = Ok true (q_st q') /\ q_static q q' /\
+      q_cur q' tid t /\ 2 <= q_arch q' /\
+      q_trows (w_tables s0) (q_rels q) (skipn (q_tab q' - 1) (q_tables q')) = Some R1 /\
+      q_arows s0 f (q_rels q) (skipn (q_arch q' - 1) archs) = Some R2 /\
+      R = firstn (t_len t) (t_ents t) ++ R1 ++ R2)
+  \/ (exists q', q_na_go qi archs f fuel pos (q_st q) = Ok false (q_st q') /\ q_static q q' /\
+        1 <= q_tab q' /\ R = []).
+Proof.
+  intros archs f fuel. induction fuel as [|fu IH]; intros pos q R Hf Hq HR Hd.
+  - right. exists q. rewrite skipn_all2 in HR by lia. cbn in HR.
+    split; [reflexivity|]. split; [apply q_static_refl|]. split; [exact Hq | congruence].
+  - rewrite q_na_go_S. destruct (nth_error archs pos) as [aid|] eqn:En.
+    2:{ right. exists q. rewrite (q_skipn_none En) in HR. cbn in HR.
+        split; [reflexivity|]. split; [apply q_static_refl|]. split; [exact Hq | congruence]. }
+    rewrite (q_skipn_nth En) in HR. cbn [q_arows] in HR.
+    destruct (nth_error (w_archs s0) aid) as [a|] eqn:Ea; [|discriminate].
+    rewrite (sa_bind_ok (q_st_modQ _ q)).
+    set (q1 := q <| q_arch := pos + 2 |>).
+    assert (Hs1 : q_static q q1) by (unfold q_static; repeat split).
+    rewrite (sa_bind_ok (q_st_getA q1 aid a Ea)).
+    (* continuing with the next archetype *)
+    assert (Hnext : forall R', q_arows s0 f (q_rels q) (skipn (S pos) archs) = Some R' ->
+      (exists q' tid t R1 R2, q_na_go qi archs f fu (S pos) (q_st q1) = Ok true (q_st q') /\ q_static q q' /\
+          q_cur q' tid t /\ 2 <= q_arch q' /\
+          q_trows (w_tables s0) (q_rels q) (skipn (q_tab q' - 1) (q_tables q')) = Some R1 /\
+          q_arows s0 f (q_rels q) (skipn (q_arch q' - 1) archs) = Some R2 /\
+          R' = firstn (t_len t) (t_ents t) ++ R1 ++ R2)
+      \/ (exists q', q_na_go qi archs f fu (S pos) (q_st q1) = Ok false (q_st q') /\ q_static q q' /\
+            1 <= q_tab q' /\ R' = [])).
+    { intros R' HR'. apply (IH (S pos) q1 R'); [lia | exact Hq | exact HR' | exact Hd]. }
+    destruct (negb (filter_matches f (a_mask a))); [apply Hnext; exact HR|].
+    destruct (negb (arch_has_rels a)).
+    + destruct (a_tables a) as [|t0 ?]; [discriminate|].
+      destruct (nth_error (w_tables s0) t0) as [t|] eqn:Et; [|discriminate].
+      destruct (q_arows s0 f (q_rels q) (skipn (S pos) archs)) as [R2|] eqn:ER2; [|discriminate].
+      injection HR as HR. rewrite (sa_bind_ok (q_st_getT q1 t0 t Et)).
+      destruct (Nat.ltb_spec 0 (t_len t)) as [Hl|Hl].
+      * left. rewrite (sa_bind_ok (q_set_table_spec q1 0 t0 t Et Hl)).
+        exists (q_at q1 0 t0 t), t0, t, [], R2.
+        split; [reflexivity|]. split; [unfold q_static; repeat split|].
+        split; [apply q_cur_at; assumption|]. split; [cbn; lia|].
+        split; [exact (Hd 1)|]. split; [|symmetry; exact HR].
+        cbn. replace (pos + 2 - 1) with (S pos) by lia. exact ER2.
+      * assert (El : t_len t = 0) by lia. rewrite El in HR. cbn in HR. subst R2.
+        apply Hnext. reflexivity.
+    + rewrite (sa_bind_ok (q_st_getQ q1)). change (q_rels q1) with (q_rels q).
+      destruct (arch_get_tables a (q_rels q)) as [tabs|]; [|discriminate]. cbn [of_opt]. rewrite q_bind_ret.
+      destruct (q_trows (w_tables s0) (q_rels q) tabs) as [r1|] eqn:Er1; [|discriminate].
+      destruct (q_arows s0 f (q_rels q) (skipn (S pos) archs)) as [r2|] eqn:Er2; [|discriminate].
+      injection HR as HR. rewrite (sa_bind_ok (q_st_modQ _ q1)).
+      set (q2 := q1 <| q_tables := tabs |> <| q_tab := 1 |>).
+      destruct (q_next_table_uncached q2 tabs r1 ltac:(cbn; lia) Er1)
+        as [(pos' & tid & t & R' & H1 & H2 & H3 & H4 & H5)|[H1 H2]].
+      * left. rewrite (sa_bind_ok H1). exists (q_at q2 pos' tid t), tid, t, R', r2.
+        split; [reflexivity|]. split; [unfold q_static; repeat split|].
+        split; [apply q_cur_at; assumption|]. split; [cbn; lia|].
+        split; [cbn; replace (pos' + 2 - 1) with (S pos') by lia; exact H4|].
+        split; [cbn; replace (pos + 2 - 1) with (S pos) by lia; exact Er2|].
+        rewrite <- HR, H5, app_assoc. reflexivity.
+      * rewrite (sa_bind_ok H2).
+        subst r1. cbn [app] in HR. subst r2.
+        set (q3 := q2 <| q_tab := Nat.max (q_tab q2) (length tabs + 1) |>).
+        assert (Hq3 : 1 <= q_tab q3) by (unfold q3, q2; cbn; destruct (length tabs + 1); lia).
+        destruct (IH (S pos) q3 R ltac:(lia) Hq3 Er2 ltac:(intros k; apply q_trows_dead; exact Er1))
+          as [(q' & tid & t & R1 & R2 & G1 & G2 & G3)|(q' & G1 & G2 & G3)].
+        -- left. exists q', tid, t, R1, R2. split; [exact G1|]. split; [|exact G3].
+           eapply q_static_trans; [|exact G2]. unfold q_static; repeat split.
+        -- right. exists q'. split; [exact G1|]. split; [|exact G3].
+           eapply q_static_trans; [|exact G2]. unfold q_static; repeat split.
+Qed.
+
+(** The rows still to visit after the current table, for a running cursor. *)
+Definition q_rest (q : qobj) (R : list ent) : Prop :=
+  1 <= q_tab q /\
+  match q_cache q with
+  | Some addr => exists e, nth_error (w_cheap s0) addr = Some e /\
+                 q_trows (w_tables s0) (q_rels q) (skipn (q_tab q - 1) (ce_tables e)) = Some R
+  | None => exists f R1 R2, nth_error (w_filters s0) (q_filter q) = Some f /\ 1 <= q_arch q /\
+                 (q_arch q = 1 -> q_tables q = []) /\
+                 q_trows (w_tables s0) (q_rels q) (skipn (q_tab q - 1) (q_tables q)) = Some R1 /\
+                 q_arows s0 f (q_rels q) (skipn (q_arch q - 1) (query_archetypes s0 q)) = Some R2 /\
+                 R = R1 ++ R2
+  end.
+
+Lemma q_next_archetype_spec : forall q f R,
+  1 <= q_arch q -> 1 <= q_tab q -> q_cache q = None ->
+  nth_error (w_filters s0) (q_filter q) = Some f ->
+  q_arows s0 f (q_rels q) (skipn (q_arch q - 1) (query_archetypes s0 q)) = Some R ->
+  mk_get (lk_mask (w_lock s0)) (q_lock q) = true ->
+  (exists q' tid t R', query_next_archetype qi (q_st q) = Ok true (q_st q') /\ q_lock q' = q_lock q /\
+      q_cur q' tid t /\ q_rest q' R' /\ R = firstn (t_len t) (t_ents t) ++ R')
+  \/ (R = [] /\ exists s', query_next_archetype qi (q_st q) = Ok false s' /\ q_final (q_lock q) s').
+Proof.
+  intros q f R Ha Ht Hc Hf HR Hl. rewrite q_next_archetype_eq.
+  rewrite (sa_bind_ok (q_st_modQ _ q)).
+  set (q1 := q <| q_tables := [] |>).
+  rewrite (sa_bind_ok (q_st_getQ q1)).
+  change (q_arch q1) with (q_arch q). change (q_filter q1) with (q_filter q).
+  destruct (Nat.leb_spec 1 (q_arch q)); [|lia]. cbn [guard]. rewrite q_bind_ret.
+  rewrite q_bind_get.
+  change (query_archetypes (q_st q1) q1) with (query_archetypes s0 q).
+  rewrite (sa_bind_ok (q_st_getF q1 _ f Hf)).
+  destruct (q_na_go_spec (query_archetypes s0 q) f (S (length (query_archetypes s0 q))) (q_arch q - 1) q1 R
+              ltac:(lia) Ht HR ltac:(intros k; cbn; rewrite skipn_nil; reflexivity))
+    as [(q' & tid & t & R1 & R2 & G1 & G2 & G3 & G4 & G5 & G6 & G7)|(q' & G1 & G2 & G3 & G4)].
+  - rewrite (sa_bind_ok G1). cbv iota. left. exists q', tid, t, (R1 ++ R2).
+    destruct G2 as (S1 & S2 & S3 & S4 & S5). cbn in S1, S2, S3, S4, S5.
+    split; [reflexivity|]. split; [exact S4|]. split; [exact G3|]. split; [|exact G7].
+    destruct G3 as (_ & _ & _ & _ & _ & G3). split; [lia|]. rewrite S3, Hc.
+    exists f, R1, R2. rewrite S1, S2. unfold query_archetypes. rewrite S5.
+    split; [exact Hf|]. split; [lia|]. split; [lia|]. split; [exact G5|]. split; [exact G6 | reflexivity].
+  - rewrite (sa_bind_ok G1). cbv iota. right. split; [exact G4|].
+    destruct G2 as (S1 & S2 & S3 & S4 & S5). cbn in S4.
+    destruct (q_close_spec q' G3 ltac:(rewrite S4; exact Hl)) as (s' & C1 & C2).
+    exists s'. rewrite (sa_bind_ok C1). split; [reflexivity|]. rewrite <- S4. exact C2.
+Qed.
+
+(** One step past the current table. *)
+Lemma q_next_toa_spec : forall q R,
+  q_rest q R -> mk_get (lk_mask (w_lock s0)) (q_lock q) = true ->
+  (exists q' tid t R', query_next_table_or_archetype qi (q_st q) = Ok true (q_st q') /\ q_lock q' = q_lock q /\
+      q_cur q' tid t /\ q_rest q' R' /\ R = firstn (t_len t) (t_ents t) ++ R')
+  \/ (R = [] /\ exists s', query_next_table_or_archetype qi (q_st q) = Ok false s' /\ q_final (q_lock q) s').
+Proof.
+  intros q R [Ht HR] Hl. unfold query_next_table_or_archetype.
+  rewrite (sa_bind_ok (q_st_getQ q)).
+  destruct (Nat.leb_spec 1 (q_tab q)); [|lia]. cbn [guard]. rewrite q_bind_ret.
+  destruct (q_cache q) as [addr|] eqn:Ec.
+  - destruct HR as (e & He & HR). rewrite q_bind_get.
+    change (w_cheap (q_st q)) with (w_cheap s0). rewrite He. cbn [of_opt]. rewrite q_bind_ret.
+    destruct (q_next_table_spec q (ce_tables e) true R Ht HR)
+      as [(pos & tid & t & R' & H1 & H2 & H3 & H4 & H5)|[H1 H2]].
+    + left. exists (q_at q pos tid t), tid, t, R'. split; [exact H1|]. split; [reflexivity|].
+      split; [apply q_cur_at; assumption|]. split; [|exact H5].
+      split; [cbn; lia|]. cbn. rewrite Ec. exists e. split; [exact He|].
+      replace (pos + 2 - 1) with (S pos) by lia. exact H4.
+    + right. split; [exact H1|]. rewrite H2. cbn [whenM].
+      set (q1 := q <| q_tab := Nat.max (q_tab q) (length (ce_tables e) + 1) |>).
+      destruct (q_close_spec q1 ltac:(unfold q1; cbn; lia) Hl) as (s' & C1 & C2).
+      exists s'. rewrite (sa_bind_ok C1). split; [reflexivity | exact C2].
+  - destruct HR as (f & R1 & R2 & Hf & Ha & Hfresh & HR1 & HR2 & ->).
+    destruct (Nat.leb_spec 2 (q_arch q)) as [Ha2|Ha2].
+    + destruct (q_next_table_uncached q (q_tables q) R1 Ht HR1)
+        as [(pos & tid & t & R' & H1 & H2 & H3 & H4 & H5)|[H1 H2]].
+      * rewrite (sa_bind_ok H1). left. exists (q_at q pos tid t), tid, t, (R' ++ R2).
+        split; [reflexivity|]. split; [reflexivity|].
+        split; [apply q_cur_at; assumption|]. split; [|rewrite H5, app_assoc; reflexivity].
+        split; [cbn; lia|]. cbn. rewrite Ec. exists f, R', R2.
+        split; [exact Hf|]. split; [exact Ha|]. split; [lia|].
+        split; [replace (pos + 2 - 1) with (S pos) by lia; exact H4|]. split; [exact HR2 | reflexivity].
+      * rewrite (sa_bind_ok H2). subst R1. cbn [app].
+        set (q1 := q <| q_tab := Nat.max (q_tab q) (length (q_tables q) + 1) |>).
+        destruct (q_next_archetype_spec q1 f R2 Ha ltac:(unfold q1; cbn; lia) Ec Hf HR2 Hl) as [HH|HH]; [left|right]; exact HH.
+    + assert (E1 : q_arch q = 1) by lia. rewrite (Hfresh E1), skipn_nil in HR1. cbn in HR1.
+      injection HR1 as <-. cbn [app].
+      destruct (q_next_archetype_spec q f R2 Ha Ht Ec Hf HR2 Hl) as [HH|HH]; [left|right]; exact HH.
+Qed.
+
+(** The rows of the current table that are still to come. *)
+Definition q_valid (q : qobj) : Prop :=
+  match q_max q with
+  | None => True
+  | Some mx => exists tid t, q_table q = Some tid /\ nth_error (w_tables s0) tid = Some t /\
+                             q_index q <= mx /\ mx < length (t_ents t) /\ 2 <= q_tab q
+  end.
+Definition q_cur_rows (q : qobj) : list ent :=
+  match q_max q, q_table q with
+  | Some mx, Some tid =>
+      match nth_error (w_tables s0) tid with
+      | Some t => skipn (S (q_index q)) (firstn (S mx) (t_ents t))
+      | None => []
+      end
+  | _, _ => []
+  end.
+
+Lemma q_entity_spec : forall d q tid t x,
+  2 <= q_tab q -> q_table q = Some tid -> nth_error (w_tables s0) tid = Some t ->
+  nth_error (t_ents t) (q_index q) = Some x ->
+  query_entity d qi (q_st q) = Ok x (q_st q).
+Proof.
+  intros d q tid t x Ht Hq Htt Hx. unfold query_entity. rewrite (sa_bind_ok (q_st_getQ q)).
+  assert (G : whenM d (guard (Nat.leb 2 (q_tab q)) EMisuse) (q_st q) = Ok tt (q_st q)).
+  { destruct d; cbn [whenM]; [|reflexivity]. destruct (Nat.leb_spec 2 (q_tab q)); [reflexivity | lia]. }
+  rewrite (sa_bind_ok G). rewrite Hq. cbn [of_opt]. rewrite q_bind_ret.
+  rewrite (sa_bind_ok (q_st_getT q tid t Htt)). rewrite Hx. reflexivity.
+Qed.
+
+Lemma q_drain_spec : forall d fuel q R,
+  q_valid q -> q_rest q R -> mk_get (lk_mask (w_lock s0)) (q_lock q) = true ->
+  length (q_cur_rows q ++ R) < fuel ->
+  exists s', drain d fuel qi (q_st q) = Ok (q_cur_rows q ++ R) s' /\ q_final (q_lock q) s'.
+Proof.
+  intros d fuel. induction fuel as [|fu IH]; intros q R Hv Hr Hl Hlen; [lia|].
+  cbn [drain].
+  (* advancing past the current table *)
+  assert (Hadv : q_cur_rows q = [] ->
+    (query_next d qi (q_st q) = query_next_table_or_archetype qi (q_st q)) ->
+    exists s', match query_next d qi (q_st q) with
+               | Ok true s1 => match query_entity d qi s1 with
+                               | Ok x s2 => match drain d fu qi s2 with
+                                            | Ok xs s3 => Ok (x :: xs) s3 | Err e s3 => Err e s3 end
+                               | Err e s2 => Err e s2 end
+               | Ok false s1 => Ok [] s1
+               | Err e s1 => Err e s1
+               end = Ok (q_cur_rows q ++ R) s' /\ q_final (q_lock q) s').
+  { intros Hc Hn. rewrite Hn, Hc. cbn [app]. rewrite Hc in Hlen. cbn [app] in Hlen.
+    destruct (q_next_toa_spec q R Hr Hl) as [(q' & tid & t & R' & H1 & H2 & H3 & H4 & H5)|(H1 & s' & H2 & H3)].
+    - rewrite H1. destruct H3 as (C1 & C2 & C3 & C4 & C5 & C6).
+      pose proof (Hshape tid t C2) as Hsh.
+      destruct (nth_error (t_ents t) 0) as [x|] eqn:Ex; [|apply nth_error_None in Ex; lia].
+      rewrite (q_entity_spec d q' tid t x C6 C1 C2 ltac:(rewrite C5; exact Ex)).
+      assert (Hv' : q_valid q').
+      { unfold q_valid. rewrite C4. exists tid, t. repeat split; try assumption; lia. }
+      assert (Hrows : firstn (t_len t) (t_ents t) = x :: q_cur_rows q').
+      { unfold q_cur_rows. rewrite C4, C1, C2, C5. replace (S (t_len t - 1)) with (t_len t) by lia.
+        change (firstn (t_len t) (t_ents t)) with (skipn 0 (firstn (t_len t) (t_ents t))) at 1.
+        apply q_skipn_nth. rewrite q_nth_error_firstn by lia. exact Ex. }
+      destruct (IH q' R' Hv' H4 ltac:(rewrite H2; exact Hl)) as (s' & D1 & D2).
+      { subst R. rewrite Hrows in Hlen. cbn [app length] in Hlen. lia. }
+      exists s'. rewrite D1. split; [|rewrite <- H2; exact D2].
+      subst R. rewrite Hrows. reflexivity.
+    - exists s'. rewrite H2. subst R. split; [reflexivity | exact H3]. }
+  assert (Hg : whenM d (guard (Nat.leb 1 (q_tab q)) EMisuse) (q_st q) = Ok tt (q_st q)).
+  { destruct Hr as [Ht _]. destruct d; cbn [whenM]; [|reflexivity].
+    destruct (Nat.leb_spec 1 (q_tab q)); [reflexivity | lia]. }
+  assert (Hnext : query_next d qi (q_st q) =
+                  match q_max q with
+                  | Some mx => if Nat.ltb (q_index q) mx then Ok true (q_st (q <| q_index ::= S |>))
+                               else query_next_table_or_archetype qi (q_st q)
+                  | None => query_next_table_or_archetype qi (q_st q)
+                  end).
+  { unfold query_next. rewrite (sa_bind_ok (q_st_getQ q)). rewrite (sa_bind_ok Hg).
+    destruct (q_max q); [|reflexivity]. destruct (Nat.ltb (q_index q) n); [|reflexivity].
+    rewrite (sa_bind_ok (q_st_modQ _ q)). reflexivity. }
+  destruct (q_max q) as [mx|] eqn:Em.
+  2:{ apply Hadv; [unfold q_cur_rows; rewrite Em; reflexivity | exact Hnext]. }
+  unfold q_valid in Hv. rewrite Em in Hv. destruct Hv as (tid & t & V1 & V2 & V3 & V4 & V5).
+  destruct (Nat.ltb_spec (q_index q) mx) as [Hlt|Hge].
+  - rewrite Hnext. set (q1 := q <| q_index ::= S |>).
+    destruct (nth_error (t_ents t) (S (q_index q))) as [x|] eqn:Ex; [|apply nth_error_None in Ex; lia].
+    rewrite (q_entity_spec d q1 tid t x V5 V1 V2 Ex).
+    assert (Hrows : q_cur_rows q = x :: q_cur_rows q1).
+    { unfold q_cur_rows. change (q_max q1) with (q_max q). change (q_table q1) with (q_table q).
+      change (q_index q1) with (S (q_index q)). rewrite Em, V1, V2.
+      apply q_skipn_nth. rewrite q_nth_error_firstn by lia. exact Ex. }
+    assert (Hv1 : q_valid q1).
+    { unfold q_valid. change (q_max q1) with (q_max q). rewrite Em. exists tid, t.
+      repeat split; try assumption; change (q_index q1) with (S (q_index q)); lia. }
+    destruct (IH q1 R Hv1 Hr Hl) as (s' & D1 & D2).
+    { rewrite Hrows in Hlen. cbn [app length] in Hlen. lia. }
+    exists s'. rewrite D1. split; [|exact D2]. rewrite Hrows. reflexivity.
+  - apply Hadv; [|rewrite Hnext; reflexivity].
+    unfold q_cur_rows. rewrite Em, V1, V2. apply skipn_all2. rewrite firstn_length. lia.
+Qed.
+
+(** A fresh cursor on a world whose walk succeeds. *)
+Lemma q_rest_fresh : forall q w,
+  nth_error (w_queries s0) qi = Some q ->
+  q_arch q = 1 -> q_tab q = 1 -> q_tables q = [] ->
+  query_walk qi s0 = Ok w s0 ->
+  q_rest q (walk_rows s0 w).
+Proof.
+  intros q w Hq Ha Ht Htabs Hw. rewrite q_walk_eq in Hw.
+  rewrite (sa_bind_ok (q_getQ_eq s0 qi q Hq)) in Hw. rewrite q_bind_get in Hw.
+  split; [lia|]. rewrite Ht. cbn [Nat.sub skipn].
+  destruct (q_cache q) as [addr|].
+  - apply q_bind_inv in Hw. destruct Hw as (e & s1 & He & Hw). apply q_of_opt_inv in He. destruct He as [-> He].
+    exists e. split; [exact He|]. apply q_count_tables_rows in Hw. apply Hw.
+  - apply q_bind_inv in Hw. destruct Hw as (f & s1 & Hf & Hw). apply q_getF_inv in Hf. destruct Hf as [-> Hf].
+    apply q_walk_go_rows in Hw. destruct Hw as (_ & w0 & -> & Hr). cbn [app] in *.
+    exists f, [], (walk_rows s0 w0). rewrite Ha, Htabs. cbn [Nat.sub skipn].
+    split; [exact Hf|]. split; [lia|]. split; [reflexivity|]. split; [reflexivity|]. split; [exact Hr | reflexivity].
+Qed.
+End QDrain.
+
+Lemma q_st_init : forall s qi q, nth_error (w_queries s) qi = Some q -> q_st s qi q = s.
+Proof. intros s qi q H. unfold q_st. rewrite (q_upd_same _ _ _ _ H). destruct s; reflexivity. Qed.
+
 (** A freshly opened query (cursor before the first table): iterating it to exhaustion yields exactly
     the rows of the non-empty tables of its walk, in walk order, and leaves the query closed with its
     lock bit released. Preconditions: the tables and archetypes the walk mentions exist and every
@@ -100,7 +1172,23 @@ Theorem drain_is_walk : forall d qi s q w,
                 mk_get (lk_mask (w_lock s')) (q_lock q) = false
   | Err _ _ => False
   end.
-Admitted.
+Proof.
+  intros d qi s q w HWF Hq Ha Ht Hm Hi Htb Htabs Hl Hw fuel Hfuel.
+  assert (Hqi : qi < length (w_queries s)) by (eapply sa_nth_error_lt; eassumption).
+  assert (Hshape : forall tid t, nth_error (w_tables s) tid = Some t -> t_len t <= length (t_ents t)).
+  { intros tid t H. pose proof (wf_tables s HWF) as HF. rewrite Forall_forall in HF.
+    apply nth_error_In in H. apply HF in H. destruct H as ((H1 & H2 & _) & _). lia. }
+  pose proof (q_rest_fresh s qi Hqi Hshape q w Hq Ha Ht Htabs Hw) as Hr.
+  destruct (q_drain_spec s qi Hqi Hshape d fuel q (walk_rows s w)) as (s' & D1 & D2).
+  - unfold q_valid. rewrite Hm. exact I.
+  - exact Hr.
+  - exact Hl.
+  - unfold q_cur_rows. rewrite Hm. exact Hfuel.
+  - rewrite (q_st_init s qi q Hq) in D1. rewrite D1. unfold q_cur_rows; rewrite Hm; cbn [app].
+    destruct D2 as (qc & l' & -> & Hc1 & Hc2).
+    split; [reflexivity|]. split; [unfold query_frame; cbn; repeat split|].
+    split; [exists qc; split; [cbn; apply sa_nth_error_upd_eq; exact Hqi | exact Hc1] | cbn; exact Hc2].
+Qed.
 
 (** ** Debug build: the additional cursor checks change no outcome on well-formed cursors.
     A cursor is well formed if closed cursors have no row window and no current table, and a cursor
@@ -114,18 +1202,225 @@ Theorem debug_same_next : forall qi s q,
   nth_error (w_queries s) qi = Some q -> cursor_ok q ->
   is_err (query_next true qi s) = is_err (query_next false qi s) /\
   (is_err (query_next false qi s) = false -> query_next true qi s = query_next false qi s).
-Admitted.
+Proof.
+  intros qi s q Hq Hc. unfold query_next.
+  rewrite !(sa_bind_ok (q_getQ_eq s qi q Hq)). cbn [whenM].
+  destruct (Nat.leb 1 (q_tab q)) eqn:E.
+  - cbn [guard]. split; reflexivity.
+  - apply Nat.leb_gt in E. assert (E0 : q_tab q = 0) by lia.
+    destruct Hc as (H0 & _). destruct (H0 E0) as (Hm & _). rewrite Hm.
+    unfold query_next_table_or_archetype.
+    cbn [guard]. rewrite q_bind_ret, q_bind_fail.
+    rewrite !(sa_bind_ok (q_getQ_eq s qi q Hq)). rewrite E0. cbn.
+    split; [reflexivity | discriminate].
+Qed.
 
 Theorem debug_same_entity : forall qi s q,
   nth_error (w_queries s) qi = Some q -> cursor_ok q ->
   is_err (query_entity true qi s) = is_err (query_entity false qi s) /\
   (is_err (query_entity false qi s) = false -> query_entity true qi s = query_entity false qi s).
-Admitted.
+Proof.
+  intros qi s q Hq Hc. unfold query_entity.
+  rewrite !(sa_bind_ok (q_getQ_eq s qi q Hq)). cbn [whenM].
+  destruct (Nat.leb 2 (q_tab q)) eqn:E.
+  - cbn [guard]. split; reflexivity.
+  - apply Nat.leb_gt in E. destruct Hc as (H0 & H1 & _).
+    assert (Ht : q_table q = None).
+    { destruct (Nat.eq_dec (q_tab q) 0) as [E0|E0]; [apply H0; exact E0 | apply H1; lia]. }
+    rewrite Ht. cbn. split; [reflexivity | discriminate].
+Qed.
 
 (** The query operations keep cursors well formed. *)
+Definition q_T : W -> Prop := fun _ => True.
+Definition q_J (qi : nat) (s : W) : Prop :=
+  forall k q, k <> qi -> nth_error (w_queries s) k = Some q -> cursor_ok q.
+Definition q_I (qi : nat) (s : W) : Prop :=
+  q_J qi s /\ forall q, nth_error (w_queries s) qi = Some q -> 1 <= q_tab q.
+Definition q_F (s : W) : Prop := forall k q, nth_error (w_queries s) k = Some q -> cursor_ok q.
+
+Lemma q_nth_error_updf_ne : forall A (f : A -> A) l i k, k <> i -> nth_error (updf i f l) k = nth_error l k.
+Proof.
+  intros A f l i k H. unfold updf. destruct (nth_error l i); [|reflexivity].
+  apply sa_nth_error_upd_ne. congruence.
+Qed.
+Lemma q_nth_error_updf_eq : forall A (f : A -> A) l i y, nth_error (updf i f l) i = Some y ->
+  exists x, nth_error l i = Some x /\ y = f x.
+Proof.
+  intros A f l i y H. unfold updf in H. destruct (nth_error l i) as [x|] eqn:E; [|congruence].
+  exists x. split; [reflexivity|]. rewrite sa_nth_error_upd_eq in H by (eapply sa_nth_error_lt; eassumption).
+  congruence.
+Qed.
+
+Lemma q_hoare_ro : forall A (m : MW A) (P : W -> Prop), readonly m -> hoare P m (fun _ => P) q_T.
+Proof.
+  intros A m P H s Hs. specialize (H s). destruct (m s); cbn in H; subst; [exact Hs | exact I].
+Qed.
+Lemma q_hoare_getQ : forall qi (P : W -> Prop),
+  hoare P (getQ qi) (fun q s => P s /\ nth_error (w_queries s) qi = Some q) q_T.
+Proof.
+  intros qi P s Hs. unfold getQ, bind, get. destruct (nth_error (w_queries s) qi) eqn:E; cbn; [auto | exact I].
+Qed.
+Lemma q_hoare_modQ : forall qi f (P : W -> Prop) (Q : unit -> W -> Prop),
+  (forall s, P s -> Q tt (s <| w_queries ::= updf qi f |>)) -> hoare P (modQ qi f) Q q_T.
+Proof. intros qi f P Q H s Hs. unfold modQ, modify. apply H. exact Hs. Qed.
+
+Lemma q_J_modQ : forall qi f s, q_J qi s -> q_J qi (s <| w_queries ::= updf qi f |>).
+Proof.
+  intros qi f s H k q Hk Hn. cbn in Hn. rewrite q_nth_error_updf_ne in Hn by exact Hk. eapply H; eassumption.
+Qed.
+Lemma q_I_modQ : forall qi f s, (forall q, 1 <= q_tab q -> 1 <= q_tab (f q)) ->
+  q_I qi s -> q_I qi (s <| w_queries ::= updf qi f |>).
+Proof.
+  intros qi f s Hf [HJ H1]. split; [apply q_J_modQ; exact HJ|].
+  intros q Hn. cbn in Hn. apply q_nth_error_updf_eq in Hn. destruct Hn as (x & Hx & ->). apply Hf, H1, Hx.
+Qed.
+Lemma q_F_modQ : forall qi f s, (forall q, cursor_ok (f q)) -> q_J qi s -> q_F (s <| w_queries ::= updf qi f |>).
+Proof.
+  intros qi f s Hf HJ k q Hn. cbn in Hn. destruct (Nat.eq_dec k qi) as [->|Hk].
+  - apply q_nth_error_updf_eq in Hn. destruct Hn as (x & _ & ->). apply Hf.
+  - rewrite q_nth_error_updf_ne in Hn by exact Hk. eapply HJ; eassumption.
+Qed.
+
+Lemma q_ok_set_table : forall qi pos tid, hoare (q_J qi) (query_set_table qi pos tid) (fun _ => q_F) q_T.
+Proof.
+  intros. unfold query_set_table.
+  eapply hoare_bind; [apply q_hoare_ro, readonly_getT | intros t].
+  apply q_hoare_modQ. intros s Hs. apply q_F_modQ; [|exact Hs].
+  intros q. unfold cursor_ok. cbn. repeat split; try lia. congruence.
+Qed.
+
+Lemma q_ok_unlockM : forall b, hoare q_F (unlockM b) (fun _ => q_F) q_T.
+Proof.
+  intros b s Hs. unfold unlockM, bind, get. destruct (lock_unlock (w_lock s) b); cbn; [exact Hs | exact I].
+Qed.
+
+Lemma q_ok_close : forall qi, hoare (q_I qi) (query_close qi) (fun _ => q_F) q_T.
+Proof.
+  intros qi. unfold query_close.
+  eapply hoare_bind; [apply q_hoare_getQ | intros q].
+  destruct (Nat.ltb_spec (q_tab q) 1) as [Hlt|Hge].
+  - intros s [[_ H1] Hq]. apply H1 in Hq. lia.
+  - eapply hoare_bind; [|intros ?; apply q_ok_unlockM].
+    apply q_hoare_modQ. intros s [[HJ _] _]. apply q_F_modQ; [|exact HJ].
+    intros x. unfold cursor_ok. cbn. repeat split; lia.
+Qed.
+
+Lemma q_ro_nt_go : forall q tables fuel pos, readonly (q_nt_go q tables fuel pos).
+Proof.
+  intros q tables fuel. induction fuel as [|fu IH]; intros pos; [rewrite q_nt_go_0; apply readonly_ret | rewrite q_nt_go_S].
+  destruct (nth_error tables pos) as [tid|]; [|apply readonly_ret].
+  apply readonly_bind; [apply readonly_getT | intros t].
+  destruct (Nat.eqb _ _); [apply IH|].
+  apply readonly_bind; [apply readonly_of_opt | intros mt]. destruct mt; [apply readonly_ret | apply IH].
+Qed.
+
+Lemma q_I_J : forall qi s, q_I qi s -> q_J qi s.
+Proof. intros qi s [H _]. exact H. Qed.
+
+Lemma q_ok_next_table : forall qi L cached,
+  hoare (q_I qi) (query_next_table qi L cached)
+        (fun r s => if r then q_F s else if cached then q_F s else q_I qi s) q_T.
+Proof.
+  intros. rewrite q_next_table_eq.
+  eapply hoare_bind; [apply q_hoare_ro, q_ro_getQ | intros q].
+  eapply hoare_bind; [apply q_hoare_ro, q_ro_nt_go | intros r].
+  destruct r as [[pos tid]|].
+  - eapply hoare_bind; [|intros ?; apply hoare_ret; intros s Hs; exact Hs].
+    eapply hoare_conseq; [apply q_ok_set_table | apply q_I_J | auto | auto].
+  - eapply hoare_bind with (R := fun _ => q_I qi).
+    + apply q_hoare_modQ. intros s Hs. apply q_I_modQ; [|exact Hs]. intros x Hx. cbn. lia.
+    + intros ?. destruct cached; cbn [whenM].
+      * eapply hoare_bind; [apply q_ok_close | intros ?; apply hoare_ret; auto].
+      * eapply hoare_bind with (R := fun _ => q_I qi); [apply hoare_ret; auto | intros ?; apply hoare_ret; auto].
+Qed.
+
+Lemma q_ok_na_go : forall qi archs f fuel pos,
+  hoare (q_I qi) (q_na_go qi archs f fuel pos) (fun r s => if r then q_F s else q_I qi s) q_T.
+Proof.
+  intros qi archs f fuel. induction fuel as [|fu IH]; intros pos;
+    [rewrite q_na_go_0; apply hoare_ret; auto | rewrite q_na_go_S].
+  destruct (nth_error archs pos) as [aid|]; [|apply hoare_ret; auto].
+  eapply hoare_bind with (R := fun _ => q_I qi).
+  { apply q_hoare_modQ. intros s Hs. apply q_I_modQ; [|exact Hs]. intros x Hx. exact Hx. }
+  intros ?. eapply hoare_bind; [apply q_hoare_ro, q_ro_getA | intros ar].
+  destruct (negb (filter_matches f (a_mask ar))); [apply IH|].
+  destruct (negb (arch_has_rels ar)).
+  - destruct (a_tables ar) as [|t0 ?]; [apply hoare_fail; intros; exact I|].
+    eapply hoare_bind; [apply q_hoare_ro, readonly_getT | intros t].
+    destruct (Nat.ltb 0 (t_len t)); [|apply IH].
+    eapply hoare_bind; [|intros ?; apply hoare_ret; intros s Hs; exact Hs].
+    eapply hoare_conseq; [apply q_ok_set_table | apply q_I_J | auto | auto].
+  - eapply hoare_bind; [apply q_hoare_ro, q_ro_getQ | intros q].
+    eapply hoare_bind; [apply q_hoare_ro, readonly_of_opt | intros tabs].
+    eapply hoare_bind with (R := fun _ => q_I qi).
+    { apply q_hoare_modQ. intros s Hs. apply q_I_modQ; [|exact Hs]. intros x Hx. cbn. lia. }
+    intros ?. eapply hoare_bind; [apply q_ok_next_table | intros found].
+    destruct found; [apply hoare_ret; auto | apply IH].
+Qed.
+
+Lemma q_ok_next_archetype : forall qi, hoare (q_I qi) (query_next_archetype qi) (fun _ => q_F) q_T.
+Proof.
+  intros. rewrite q_next_archetype_eq.
+  eapply hoare_bind with (R := fun _ => q_I qi).
+  { apply q_hoare_modQ. intros s Hs. apply q_I_modQ; [|exact Hs]. intros x Hx. exact Hx. }
+  intros ?. eapply hoare_bind; [apply q_hoare_ro, q_ro_getQ | intros q].
+  eapply hoare_bind; [apply q_hoare_ro, readonly_guard | intros ?].
+  eapply hoare_bind; [apply q_hoare_ro, readonly_get | intros s0].
+  eapply hoare_bind; [apply q_hoare_ro, readonly_getF | intros f].
+  eapply hoare_bind; [apply q_ok_na_go | intros r].
+  destruct r; [apply hoare_ret; auto|].
+  eapply hoare_bind; [apply q_ok_close | intros ?; apply hoare_ret; auto].
+Qed.
+
+Lemma q_ok_next_toa : forall qi, hoare q_F (query_next_table_or_archetype qi) (fun _ => q_F) q_T.
+Proof.
+  intros. unfold query_next_table_or_archetype.
+  eapply hoare_bind; [apply q_hoare_getQ | intros q].
+  eapply hoare_bind with (R := fun _ => q_I qi).
+  { apply hoare_guard; [|intros; exact I]. intros s [HF Hq] Hg. apply Nat.leb_le in Hg.
+    split; [intros k x _ Hx; eapply HF; exact Hx|]. intros x Hx. congruence. }
+  intros ?. destruct (q_cache q) as [addr|].
+  - eapply hoare_bind; [apply q_hoare_ro, readonly_get | intros s0].
+    eapply hoare_bind; [apply q_hoare_ro, readonly_of_opt | intros e].
+    eapply hoare_conseq; [apply q_ok_next_table | auto | | auto].
+    intros r s Hr. destruct r; exact Hr.
+  - destruct (Nat.leb 2 (q_arch q)); [|apply q_ok_next_archetype].
+    eapply hoare_bind; [apply q_ok_next_table | intros found].
+    destruct found; [apply hoare_ret; auto | apply q_ok_next_archetype].
+Qed.
+
+Lemma q_ok_next : forall d qi, hoare q_F (query_next d qi) (fun _ => q_F) q_T.
+Proof.
+  intros. unfold query_next.
+  eapply hoare_bind; [apply q_hoare_getQ | intros q].
+  eapply hoare_bind with (R := fun _ s => q_F s /\ nth_error (w_queries s) qi = Some q).
+  { destruct d; cbn [whenM]; [|apply hoare_ret; auto]. apply hoare_guard; [auto | intros; exact I]. }
+  intros ?.
+  assert (Htoa : hoare (fun s => q_F s /\ nth_error (w_queries s) qi = Some q)
+                       (query_next_table_or_archetype qi) (fun _ => q_F) q_T).
+  { eapply hoare_conseq; [apply q_ok_next_toa | | auto | auto]. intros s [H _]; exact H. }
+  destruct (q_max q) as [mx|] eqn:Em; [|exact Htoa].
+  destruct (Nat.ltb (q_index q) mx); [|exact Htoa].
+  eapply hoare_bind; [|intros ?; apply hoare_ret; intros s Hs; exact Hs].
+  apply q_hoare_modQ. intros s [HF Hq] k x Hx. cbn in Hx.
+  destruct (Nat.eq_dec k qi) as [->|Hk].
+  - apply q_nth_error_updf_eq in Hx. destruct Hx as (y & Hy & ->).
+    assert (y = q) by congruence. subst y.
+    destruct (HF _ _ Hq) as (H0 & H1 & H2). unfold cursor_ok. cbn.
+    split; [|split].
+    + intros Ht. destruct (H0 Ht) as (Hm & _). congruence.
+    + intros Ht. destruct (H1 Ht) as (_ & Hm). congruence.
+    + exact H2.
+  - rewrite q_nth_error_updf_ne in Hx by exact Hk. eapply HF; exact Hx.
+Qed.
+
 Theorem cursor_ok_preserved : forall d qi s,
   (forall k q, nth_error (w_queries s) k = Some q -> cursor_ok q) ->
   let s' := state_of (query_next d qi s) in
   is_err (query_next d qi s) = false ->
   forall k q, nth_error (w_queries s') k = Some q -> cursor_ok q.
-Admitted.
+Proof.
+  intros d qi s H s' He. pose proof (q_ok_next d qi s H) as Hh. subst s'.
+  destruct (query_next d qi s); [exact Hh | discriminate].
+Qed.
+
